@@ -18,9 +18,10 @@ EXT_BITMAPS = 0x23852875
 EXT_CRYPTO = 0x0537BE77
 
 
-def deflate_raw(data: bytes, level: int = 6) -> bytes:
+def deflate_raw(data: bytes, level: int = 6, final: bool = True) -> bytes:
     co = zlib.compressobj(level, zlib.DEFLATED, -12)
-    return co.compress(data) + co.flush()
+    # final=False: all of the cluster's data, flushed, but no final block - a reader needs the cluster's bytes, not the end mark
+    return co.compress(data) + (co.flush() if final else co.flush(zlib.Z_SYNC_FLUSH))
 
 
 def extension(magic: int, data: bytes) -> bytes:
@@ -59,6 +60,14 @@ def make_view(rng, *, size: int, cluster_bits: int, kinds, extl2: bool, tag: int
     for g, k in kinds.items():
         if k in ("N", "C"):
             layer.units[g] = D
+        elif k == "=":
+            # shares the host cluster of the guest cluster before it (two identical L2 entries, as after de-duplication):
+            # it holds the very same bytes
+            from vf.core import sector_bytes
+
+            layer.units[g] = D
+            for s_ in range(spc):
+                layer.override[g * spc + s_] = layer.override.get((g - 1) * spc + s_) or sector_bytes(tag, (g - 1) * spc + s_, 1)
         elif k in ("Z", "z"):
             layer.units[g] = Z
         elif k == "S":
@@ -117,7 +126,7 @@ def build(rng, *, cluster_bits: int, size: int, views: list[View], version: int 
           snapshots_meta: list[dict] | None = None, copied_random: bool = True, level: int = 6,
           tuned_frac: float = 0.3, compat: int = 0, autoclear: int = 0, incompat_extra: int = 0,
           refcount_order: int = 4, crypt_method: int = 0, compression_type: int = 0, pack_compressed: bool = True,
-          rand_info: bool = True, ext_end_marker: bool = True, snap_short_l1: bool = False, corrupt_deflate: bool = False):
+          rand_info: bool = True, ext_end_marker: bool = True, snap_short_l1: bool = False, corrupt_deflate: bool = False, sync_flush_frac: float = 0.0):
     """-> (SparseFile image, SparseFile|None data_file, meta). views[0] is the active image, the rest snapshots."""
     cs = 1 << cluster_bits
     spc = cs // SECTOR
@@ -150,7 +159,8 @@ def build(rng, *, cluster_bits: int, size: int, views: list[View], version: int 
             k = view.kinds[g]
             if k == "C":
                 raw = _cluster_bytes(view.layer, g, spc, rng, cs, level, tuned_frac)
-                blob = deflate_raw(raw, level)
+                unfinished = bool(sync_flush_frac and rng.random() < sync_flush_frac)
+                blob = deflate_raw(raw, level, final=not unfinished)
                 if corrupt_deflate:
                     # NOT a well-formed image: the first deflate block carries the reserved block type (for checks that are
                     # about what a reader does when decompression fails)
@@ -162,6 +172,10 @@ def build(rng, *, cluster_bits: int, size: int, views: list[View], version: int 
                 else:
                     comp[g] = blob
                     gap = rng.choice([0, 0, 0, 1, 7, 100]) if pack_compressed else (-cur_len) % SECTOR
+                    if unfinished:
+                        # the sectors the entry names end exactly where this stream ends: there is no end mark a reader could stop
+                        # at, what follows in the file is not part of the stream
+                        gap = (-(cur_len + len(blob))) % SECTOR
                     cur_group.append((g, cur_len + gap))
                     cur_len += gap + len(blob)
                     if rng.random() < 0.3 or cur_len > 3 * cs:
@@ -205,7 +219,15 @@ def build(rng, *, cluster_bits: int, size: int, views: list[View], version: int 
                 g = t * l2_entries + e
                 k = view.kinds.get(g, "U") if g < nclusters else "U"
                 bitmap = 0
-                if k == "N":
+                if k == "=":
+                    root = g - 1
+                    while view.kinds.get(root) == "=":
+                        root -= 1
+                    entry = dlay[("d", vi, root)]  # refcount > 1: the COPIED flag is clear
+                    bitmap = 0xFFFFFFFF
+                    if e > 0:
+                        ents[-(2 if extl2 else 1)] &= ~COPIED
+                elif k == "N":
                     off = dlay[("d", vi, g)]
                     entry = off | COPIED if (not copied_random or rng.random() < 0.8 or (external_data and off == 0)) else off
                     if external_data and off == 0:
